@@ -20,7 +20,7 @@ func (g *genState) fields(max int) []Field {
 		k := hx.Uniform(g.rt, 100, "fieldkind")
 		switch {
 		case k < 68:
-			out = append(out, Field{Tag: "dep", Target: g.target(), Optional: rare(g.rt, 40, "fopt"), Iface: rare(g.rt, 30, "fiface")})
+			out = append(out, Field{Tag: "dep", Target: g.target(), Optional: rare(g.rt, 40, "fopt"), Iface: rare(g.rt, 30, "fiface"), Pre: g.pre()})
 		case k < 92:
 			// required fields prefer keys that exist so that the extra injector does not dominate failures
 			f := Field{Tag: "cfg", Optional: rare(g.rt, 50, "copt"), Iface: rare(g.rt, 30, "ciface")}
@@ -29,12 +29,31 @@ func (g *genState) fields(max int) []Field {
 			} else {
 				f.Target = 2 * hx.Uniform(g.rt, 2, "ckey2")
 			}
+			if rare(g.rt, 10, "cpre") {
+				f.Pre = "stale"
+			}
 			out = append(out, f)
 		default:
 			out = append(out, Field{})
 		}
 	}
 	return out
+}
+
+// pre draws what a dependency field holds before InjectTo is called (zero in 3 of 4 cases).
+func (g *genState) pre() string {
+	if !rare(g.rt, 24, "pre") {
+		return ""
+	}
+	return []string{"foreign", "other", "own"}[hx.Uniform(g.rt, 3, "prekind")]
+}
+
+// pool draws the two-providers-in-turn scenario for an InjectTo.
+func (g *genState) pool() string {
+	if !rare(g.rt, 14, "pool") {
+		return ""
+	}
+	return []string{"before", "after"}[hx.Uniform(g.rt, 2, "poolkind")]
 }
 
 func (g *genState) anyDef() *DefOp {
@@ -57,7 +76,7 @@ func (g *genState) factory(allowDefine bool) *Factory {
 			g.budget--
 		case k < 94 || !allowDefine:
 			fs := g.fields(3)
-			f.Steps = append(f.Steps, Step{Kind: "inject", Fields: fs, Optional: rare(g.rt, 20, "iopt")})
+			f.Steps = append(f.Steps, Step{Kind: "inject", Fields: fs, Optional: rare(g.rt, 20, "iopt"), Pool: g.pool()})
 			g.budget -= len(fs)
 		default:
 			f.Steps = append(f.Steps, Step{Kind: "define", Def: g.anyDef()})
@@ -235,7 +254,7 @@ func Gen(rt *rapid.T) Case {
 					resolved = true
 				}
 			}
-			c.Reqs = append(c.Reqs, Req{Kind: "inject", Fields: fs})
+			c.Reqs = append(c.Reqs, Req{Kind: "inject", Fields: fs, Pool: g.pool()})
 		case k < 87:
 			if resolved {
 				c.Reqs = append(c.Reqs, Req{Kind: "keys"})
